@@ -34,8 +34,11 @@ def run_checks(tmp, props, tier="quick"):
 
 def run_tests(tmp):
     env = dict(os.environ, PYTHONPATH=tmp)
-    r = subprocess.run(["/venv/bin/python", "-m", "pytest", "-q", "-x", "-p", "no:cacheprovider",
-                        "tests"], cwd=tmp, env=env, capture_output=True, text=True)
+    try:
+        r = subprocess.run(["/venv/bin/python", "-m", "pytest", "-q", "-x", "-p", "no:cacheprovider",
+                            "tests"], cwd=tmp, env=env, capture_output=True, text=True, timeout=300)
+    except subprocess.TimeoutExpired:
+        return 124, "the pinned tests do not terminate within 300 s"
     tail = (r.stdout.strip().splitlines() or [""])[-1]
     return r.returncode, tail
 
